@@ -77,3 +77,4 @@ def build(namespace, body, base=None, finish=True, kwargs=None):
         e.exit()
     code = e.assemble()
     return e, code, list(reg.maps)
+from .bpfsym import FP as bpfsym_FP  # noqa
